@@ -82,6 +82,16 @@ def main():
             k = int(s.split('-')[1])
             kk = k - (1 if s.startswith('C14-') and k >= 9 else 0)  # C14 has one extra round-5 seed
             rnd = 8 if kk >= 13 else 7 if kk >= 11 else (6 if kk >= 9 else (5 if kk >= 7 else (4 if kk >= 5 else None)))
+            if kk >= 13:
+                # rounds 8-10 did not give every property two seeds: the round is read off the commit that added the seed
+                import subprocess
+                h = subprocess.run(['git', '-C', '/verif', 'log', '--diff-filter=A', '--format=%H', '--', 'seeded/%s/patch.diff' % s], capture_output=True, text=True).stdout.split()
+                if not h:
+                    rnd = 10
+                else:
+                    r8 = subprocess.run(['git', '-C', '/verif', 'merge-base', '--is-ancestor', h[-1], '52b2c15']).returncode == 0
+                    r9 = subprocess.run(['git', '-C', '/verif', 'merge-base', '--is-ancestor', h[-1], '0fe5490']).returncode == 0
+                    rnd = 8 if r8 else (9 if r9 else 10)
             notes = open(os.path.join(d, 'notes.md')).read() if os.path.exists(os.path.join(d, 'notes.md')) else ''
             demo = open(os.path.join(d, 'demo_test.go')).read()
             pkg = re.search(r'^package (\w+)', demo, re.M).group(1)
@@ -91,6 +101,25 @@ def main():
                 'round': rnd,
                 'needs_to_manifest': needs_section(notes),
                 'demo': {'file': 'demo_test.go', 'place_in': place, 'needs_race_detector': s.startswith('C06-')},
+            }
+        vl = os.path.join(d, 'verify.log')
+        if 'verified' not in meta and os.path.exists(vl):
+            # the intake's own record (tools/seedcheck.sh): three sections
+            txt = open(vl).read()
+            sec = re.split(r'^== ', txt, flags=re.M)
+            res = {}
+            for part in sec:
+                if part.startswith('demo without change'):
+                    res['demo-without'] = 'ok' if re.search(r'^ok\s', part, re.M) else 'NOT-OK'
+                elif part.startswith('build + suite with change'):
+                    res['suite-fail-lines'] = len(re.findall(r'^(--- FAIL|FAIL)', part, re.M))
+                elif part.startswith('demo with change'):
+                    res['demo-with'] = 'FAIL' if re.search(r'^(--- FAIL|FAIL)', part, re.M) else 'NOT-FAILING'
+            if 'PATCH DOES NOT APPLY' in txt:
+                res = {'patch': 'did not apply at intake'}
+            meta['verified'] = {
+                'how': 'tools/seedcheck.sh at intake, in a scratch worktree of /repo HEAD of that time: demo passes without the change; go build ./... and the full suite pass with the change; demo fails with the change (log: verify.log)',
+                'result': ' '.join('%s=%s' % (k, res[k]) for k in res),
             }
         for log, commit in verifies:
             if s in log:
